@@ -731,7 +731,7 @@ class PyEval:
             return ("bound", base, n.attr)
         if isinstance(base, (list, set)) and n.attr in ("append", "add", "extend", "index", "copy"):
             return ("bound", base, n.attr)
-        if isinstance(base, str) and n.attr in ("split", "upper", "lower", "startswith", "endswith", "join", "format", "strip", "replace"):
+        if isinstance(base, str) and n.attr in ("split", "upper", "lower", "startswith", "endswith", "join", "format", "strip", "replace", "removeprefix", "removesuffix", "lstrip", "rstrip", "isdigit", "find", "partition", "rpartition", "zfill"):
             return ("bound", base, n.attr)
         if isinstance(base, tuple) and base and base[0] == "external":
             return ("external", base[1] + "." + n.attr)
